@@ -181,7 +181,15 @@ func c10Gen(r *Rng, tier string, i int) Sx {
 	hs = append(hs, L(I(1), L(L(A("snap")), L(A("isab")), L(A("next")))))
 	nRoutes := r.Range(2, 4)
 	var stmts []Sx
-	stmts = append(stmts, L(A("use"), I(1)))
+	noGlobal := r.Chance(1, 6)
+	if !noGlobal {
+		stmts = append(stmts, L(A("use"), I(1)))
+	} else {
+		// no global middleware, but a custom NotFound chain of several handlers (a slice the router keeps): requests that
+		// are not found alternate with matched ones
+		hs = append(hs, L(I(30), L(L(A("snap")), L(A("isab")), L(A("next")))), L(I(31), L(ev(310), L(A("next")))), L(I(32), L(wst(404), wwr("custom-404"))))
+		stmts = append(stmts, L(A("nf"), I(30), I(31), I(32)))
+	}
 	var paths []string
 	for k := 0; k < nRoutes; k++ {
 		mw := 10 + k
@@ -238,7 +246,11 @@ func c10Gen(r *Rng, tier string, i int) Sx {
 	}
 	var reqs []Sx
 	for n := r.Range(3, 8); n > 0; n-- {
-		switch r.Intn(8) {
+		k := r.Intn(8)
+		if noGlobal && k >= 4 {
+			k = 0
+		}
+		switch k {
 		case 0:
 			reqs = append(reqs, L(S("GET"), S("/none"), L()))
 		case 1:
